@@ -508,8 +508,80 @@ def _run_conf(case):
     return case['kind'], True
 
 
+# ------------------------------------------------------------------ a signed source refreshed in place
+def refresh_cases():
+    out = []
+    for backend in ('remote', 'local'):
+        for second in ('tampered', 'wrongkey', 'other-valid', 'unsigned-other'):
+            for first in ('valid', 'tampered'):
+                out.append({'backend': backend, 'first': first, 'second': second})
+    return out
+
+
+def run_refresh(case):
+    """a source object configured with a verification certificate is loaded, then loaded again (the application's periodic refresh) after the document behind it
+    changed: whatever fails verification contributes nothing, before or after"""
+    import tempfile, shutil
+    from saml2_tophat.mdstore import MetaDataExtern, MetaDataFile
+    from saml2_tophat.attribute_converter import ac_factory
+    from saml2_tophat.config import Config
+    from saml2_tophat.sigver import security_context
+    world.install_inprocess_tool()
+    clock.install()
+    clock.set_now(1700000000)
+    good_e, new_e, evil_e = 'https://fed-a.example.org/idp', 'https://fed-b.example.org/idp', 'https://fed-evil.example.org/idp'
+
+    def doc(kind):
+        sid = 'md-r'
+        ents = [{'entityid': good_e, 'idp': {'keys': [('signing', 4)]}}]
+        if kind in ('other-valid', 'unsigned-other'):
+            ents = [{'entityid': new_e, 'idp': {'keys': [('signing', 5)]}}]
+        if kind == 'unsigned-other':
+            return build.entities_xml(ents, id=sid)
+        xml = build.sign(build.entities_xml(ents, id=sid, signature=build.sig_template(sid, 'sha256')), SIGNED_ROOT, sid, 8 if kind == 'wrongkey' else 7)
+        if kind == 'wrongkey':
+            xml = xml.replace(good_e, evil_e)            # (signed by a key the consumer does not trust)
+            xml = build.sign(build.entities_xml([{'entityid': evil_e, 'idp': {'keys': [('signing', 4)]}}], id=sid, signature=build.sig_template(sid, 'sha256')), SIGNED_ROOT, sid, 8)
+        if kind == 'tampered':
+            xml = xml.replace(good_e, evil_e)
+        return xml
+    verified = {'valid': [good_e], 'other-valid': [new_e], 'unsigned-other': [new_e], 'tampered': [], 'wrongkey': []}
+    conf = Config()
+    conf.xmlsec_binary = world.XMLSEC
+    sec = security_context(conf)
+    d = tempfile.mkdtemp(prefix='verif-c16-')
+    try:
+        docs = {}
+        if case['backend'] == 'remote':
+            src = MetaDataExtern(ac_factory(), 'https://md.example.org/feed', sec, world.crt(7), FakeHTTP(docs))
+        else:
+            path = os.path.join(d, 'feed.xml')
+            src = MetaDataFile(ac_factory(), path, cert=world.crt(7), security=sec)
+        allowed = set()
+        for step in (case['first'], case['second']):
+            xml = doc(step)
+            docs['https://md.example.org/feed'] = xml
+            if case['backend'] == 'local':
+                with open(path, 'w') as f:
+                    f.write(xml)
+            try:
+                src.load()
+            except Exception:
+                pass
+            allowed |= set(verified[step])
+            served = set(src.keys())
+            if not served <= allowed:
+                raise Violation('unverified-document-contributes', '%s source with a verification certificate, documents %s then %s: after loading the %s document the source serves %r; '
+                                'only %r come from documents whose signature verified (or that carry none)' % (case['backend'], case['first'], case['second'], step, sorted(served), sorted(allowed)))
+    finally:
+        shutil.rmtree(d, ignore_errors=True)
+    return 'refresh|%s|%s-then-%s' % (case['backend'], case['first'], case['second']), True
+
+
+
 def parts(tier):
     quick = tier != 'thorough'
     return [Part('federations', run, strategy=spec_strategy, examples=2500 if quick else 60000,
                  mandatory=[]),
+            Part('source-refresh', run_refresh, cases=refresh_cases, exhaustive=True),
             Part('config-roundtrip', run_conf, strategy=conf_strategy, examples=600 if quick else 10000)]
